@@ -6,6 +6,7 @@ simulator owns - absolute location, working directory, spelling of the input
 path, source of the prefix.  Each world runs under several placements and all
 pages must agree on title block and module directive.
 """
+import os
 import posixpath
 
 from hypothesis import strategies as st
@@ -31,7 +32,7 @@ ASSUMPTIONS = E1_ASSUMPTIONS + [
     "does not choose); both are accepted",
     "the @module clauses are a pure function of the file text; they are checked because the pages exist, simulation adds "
     "nothing to them"]
-PROBES = ["module_named_like_generated", "subdir_named_like_prefix", "other_input_first", "single_file_input", "dir_input", "spelled_dot", "spelled_dotdot", "spelled_abs", "spelled_trailing_slash",
+PROBES = ["stale_pages_in_output_dir", "module_named_like_generated", "subdir_named_like_prefix", "other_input_first", "single_file_input", "dir_input", "spelled_dot", "spelled_dotdot", "spelled_abs", "spelled_trailing_slash",
           "prefix_default", "prefix_cli", "prefix_sfile", "prefix_user", "sep_not_dot", "ext_in_titles", "ext_in_modules",
           "custom_headers", "module_named", "module_unnamed", "module_body", "depth_ge_2", "moved_tree"]
 
@@ -111,7 +112,8 @@ def strategy(cfg):
             placements.append({"loc": loc, "cwd": cwd, "input": draw(st.sampled_from(forms)),
                                "prefix_src": draw(st.integers(0, 2)), "listing_key": draw(st.integers(0, 9)),
                                # another directory documented first in the same invocation
-                               "decoy_first": draw(st.integers(0, 3)) == 0})
+                               "decoy_first": draw(st.integers(0, 3)) == 0,
+                               "stale_out": draw(st.integers(0, 2)) == 0})
         return {"files": files, "proj_name": proj_name, "tree": tree, "single": single, "prefix": prefix, "rst": rst,
                 "placements": placements}
     return world()
@@ -240,7 +242,20 @@ def evaluate(spec, ctx):
                     rst["prefix"] = spec["prefix"]
                 else:
                     user_rst["prefix"] = spec["prefix"]
-            remove_outputs(base, ["cfg/s.yaml", "home/.config/cminx/config.yaml", "out"])
+            remove_outputs(base, ["cfg/s.yaml", "home/.config/cminx/config.yaml"])
+            if pl.get("stale_out") and os.path.isdir(os.path.join(base, "out")):
+                # the output directory of the previous placement stays, every page replaced by a page of "another
+                # project" (other title, longer or torn) stamped in the future: this run must still produce its own pages
+                import time as _time
+                future = _time.time() + 86400 * 365
+                for k in sorted(core.read_tree(base, "out")):
+                    pth = os.path.join(base, "out", k)
+                    with open(pth, "w") as f:
+                        f.write("\n#####\nother\n#####\n\n.. module:: other\n\n" + ("stale line\n" * (40 if len(k) % 2 else 0)))
+                    os.utime(pth, (future, future))
+                ctx.probes["stale_pages_in_output_dir"] += 1
+            else:
+                remove_outputs(base, ["out"])
             s_text, u_text = build_config(None, None, rst), build_config(None, None, user_rst)
             if s_text:
                 core.materialise(base, {"cfg/s.yaml": s_text})
